@@ -21,6 +21,10 @@ var children = map[string]childFn{}
 
 func main() {
 	if len(os.Args) >= 3 && os.Args[1] == "--child" {
+		// rend prints diagnostics with fmt.Printf; keep them out of the verdict stream
+		if devnull, err := os.OpenFile(os.DevNull, os.O_WRONLY, 0); err == nil {
+			os.Stdout = devnull
+		}
 		fn, ok := children[os.Args[2]]
 		if !ok {
 			fmt.Fprintf(os.Stderr, "unknown child %q\n", os.Args[2])
